@@ -1083,6 +1083,8 @@ GEN_SRC.update({n: gen_src(n) for n in ("SrcMyersTbState", "SrcMyersTbShort")})
 EXTRACTORS["C10"] = EXTRACTORS["C10"] + [GEN_SRC[n] for n in ("SrcMyersTbState", "SrcMyersTbShort")]
 GEN_SRC.update({n: gen_src(n) for n in ("SrcMyersTbMask", "SrcMyersTbShort2")})
 EXTRACTORS["C10"] = EXTRACTORS["C10"] + [GEN_SRC[n] for n in ("SrcMyersTbMask", "SrcMyersTbShort2")]
+GEN_SRC.update({n: gen_src(n) for n in ("SrcMyersTbLoop",)})
+EXTRACTORS["C10"] = EXTRACTORS["C10"] + [GEN_SRC[n] for n in ("SrcMyersTbLoop",)]
 
 
 # genprob: log-space probability arithmetic (C15) — dialect "prob" of tools/rs2lean_genprob.py (`f64` abstract);
